@@ -652,3 +652,262 @@ def shrink_circuit(dump, still_fails):
                 dump, changed = d2, True
                 break
     return dump
+
+
+# ================================================================ C17: normalisation and lookups
+def tri(v):
+    """JSON form of a truth-table entry with don't-cares: 0, 1 or None"""
+    return None if v is None else int(bool(v))
+
+
+def impl_table(t):
+    return [[bool(x) for x in row] for row in t]
+
+
+def impl_model_table(tm):
+    from cirbo.core.logic import DontCare
+    return [[DontCare if x is None else bool(x) for x in row] for row in tm]
+
+
+def model_table_term(tm) -> str:
+    return ct.lst(ct.lst('None' if x is None else ('(Some true)' if x else '(Some false)') for x in row) for row in tm)
+
+
+def make_db(entries):
+    """a CircuitsDatabase opened on the given label -> bytes dictionary"""
+    from cirbo.circuits_db.db import CircuitsDatabase
+    db = CircuitsDatabase()
+    db.open()
+    db._dict = {k: bytes.fromhex(v) for k, v in entries}
+    return db
+
+
+def case_entries_term(entries) -> str:
+    return entries_term([(list(k.encode('utf-8')), list(bytes.fromhex(v))) for k, v in entries])
+
+
+def run_norm(case):
+    from cirbo.circuits_db.normalization import NormalizationInfo
+    t = impl_table(case['table'])
+
+    def go():
+        ni = NormalizationInfo(t)
+        return (ni.negations, ni.permutation, ni.mapping, ni.truth_table)
+    r = call(go)
+    okf = lambda v: (f'({bools(v[0])}, {ct.lst(str(x) + "%nat" for x in v[1])}, '
+                     f'{ct.lst(str(x) + "%nat" for x in v[2])}, {table_term(v[3])})')
+    return f'({table_term(case["table"])}, {res(r, okf)})', [('normalize', r[1] if r[0] == 'err' else 'ok'),
+                                                          ('table_outputs', len(t))]
+
+
+def run_lookup(case):
+    db = make_db(case['entries'])
+    t = impl_table(case['table'])
+    r = call(lambda: db.get_by_raw_truth_table(t), lambda c: None if c is None else ct.dump_circuit(c))
+    tags = [('lookup', r[1] if r[0] == 'err' else ('none' if r[1] is None else 'circuit')),
+            ('lookup_shape', f'{len(t[0]) if t else 0}x{len(t)}')]
+    return (f'({case_entries_term(case["entries"])}, {table_term(case["table"])}, '
+            f'{dbres(r, lambda v: ct.opt(v, ct.circuit))})'), tags
+
+
+def run_model_lookup(case):
+    from cirbo.core.circuit import gate as G
+    db = make_db(case['entries'])
+    tm = impl_model_table(case['table'])
+    excl = None if case.get('exclusion') is None else [getattr(G, n) for n in case['exclusion']]
+    r = call(lambda: db.get_by_raw_truth_table_model(tm, excl), lambda c: None if c is None else ct.dump_circuit(c))
+    excl_t = ct.opt(case.get('exclusion'), lambda e: ct.lst(e))
+    tags = [('model_lookup', r[1] if r[0] == 'err' else ('none' if r[1] is None else 'circuit')),
+            ('dont_cares', sum(x is None for row in case['table'] for x in row))]
+    return (f'({case_entries_term(case["entries"])}, {model_table_term(case["table"])}, {excl_t}, '
+            f'{dbres(r, lambda v: ct.opt(v, ct.circuit))})'), tags
+
+
+def run_decode(case):
+    from cirbo.circuits_db.circuits_encoding import decode_circuit
+    b = bytes.fromhex(case['bytes'])
+    r = call(lambda: decode_circuit(b), ct.dump_circuit)
+    return f'({bl_(b)}, {res(r, ct.circuit)})', [('decode_entry', r[1] if r[0] == 'err' else 'ok')]
+
+
+RUNNERS.update({'decode': (run_decode, 'check_decode_case', 'decode_case'),
+                'norm': (run_norm, 'check_norm_case', 'norm_case'),
+                'lookup': (run_lookup, 'check_lookup_case', 'lookup_case'),
+                'model_lookup': (run_model_lookup, 'check_model_lookup_case', 'model_lookup_case')})
+
+
+# ---------------------------------------------------------------- reference normalisation (property text)
+def ref_normalize(t):
+    """negate the outputs whose first entry is 1, sort, remove duplicates -> list of rows (tuples of 0/1)"""
+    rows = [tuple(int(not x) for x in r) if r[0] else tuple(int(x) for x in r) for r in t]
+    return sorted(set(rows))
+
+
+def ref_label(rows):
+    return '_'.join(''.join(str(x) for x in r) for r in rows)
+
+
+def circuit_table(c):
+    return [[int(bool(x)) for x in row] for row in c.get_truth_table()]
+
+
+_SHIPPED = {}
+
+
+def shipped(name):
+    """label -> bytes of a shipped database (read once per process by the implementation's own reader)"""
+    if name not in _SHIPPED:
+        import lzma
+        from cirbo.circuits_db.binary_dict_io import read_binary_dict
+        from . import env
+        with lzma.open(env.REPO / 'cirbo' / 'data' / f'{name}_db.bin.xz', 'rb') as f:
+            _SHIPPED[name] = read_binary_dict(f)
+    return _SHIPPED[name]
+
+
+BASES = {'aig': {'AND', 'NOT'},
+         'xaig': {'AND', 'OR', 'NAND', 'NOR', 'GT', 'LT', 'GEQ', 'LEQ', 'XOR', 'NXOR', 'NOT'}}
+
+
+def python_wf(dump):
+    """well-formedness of a dumped circuit, recomputed from scratch"""
+    gates = {k: (t, ops) for k, t, ops in dump['gates']}
+    if len(gates) != len(dump['gates']):
+        return 'repeated gate label'
+    ins = [k for k, (t, _) in gates.items() if t == 'INPUT']
+    if sorted(ins) != sorted(dump['inputs']) or len(set(dump['inputs'])) != len(dump['inputs']):
+        return 'input list is not the set of INPUT gates'
+    pos = {k: i for i, k in enumerate(gates)}
+    want = {}
+    for k, (t, ops) in gates.items():
+        for o in ops:
+            if o not in gates:
+                return f'operand {o} of {k} is missing'
+            if pos[o] >= pos[k]:
+                return f'operand {o} of {k} is not defined before it'
+            want.setdefault(o, []).append(k)
+    have = {k: sorted(v) for k, v in dump['users'] if v}
+    if have != {k: sorted(v) for k, v in want.items()}:
+        return 'users index is not the inverse operand relation'
+    if any(o not in gates for o in dump['outputs']):
+        return 'missing output'
+    if dump['blocks']:
+        return 'blocks present'
+    return None
+
+
+def oracle_entry(case):
+    from cirbo.circuits_db.circuits_encoding import decode_circuit
+    try:
+        c = decode_circuit(bytes.fromhex(case['bytes']))
+    except Exception as e:  # noqa: BLE001
+        return f'entry-does-not-decode: {case["db"]} entry {case["key"]}: {type(e).__name__}: {e}'
+    dump = ct.dump_circuit(c)
+    msg = python_wf(dump)
+    if msg:
+        return f'entry-not-well-formed: {case["db"]} entry {case["key"]}: {msg}'
+    label = ref_label([tuple(r) for r in circuit_table(c)])
+    if label != case['key']:
+        return f'entry-wrong-function: {case["db"]} entry {case["key"]} computes {label}'
+    foreign = {t for _, t, _ in dump['gates']} - BASES[case['db']] - {'INPUT'}
+    if foreign:
+        return f'entry-outside-basis: {case["db"]} entry {case["key"]} uses {sorted(foreign)}'
+    return None
+
+
+def db_for_case(case):
+    if case.get('entries') is not None:
+        return make_db(case['entries'])
+    from cirbo.circuits_db.db import CircuitsDatabase
+    db = CircuitsDatabase()
+    db.open()
+    db._dict = shipped(case['db'])
+    return db
+
+
+def oracle_lookup(case):
+    """get_by_raw_truth_table: a circuit computing exactly the table, or None only if the normalised table is absent"""
+    db = db_for_case(case)
+    t = [[int(x) for x in row] for row in case['table']]
+    try:
+        c = db.get_by_raw_truth_table(impl_table(t))
+    except Exception as e:  # noqa: BLE001
+        if case.get('entries') is not None and case.get('corrupt'):
+            return None                      # hand-made database with a deliberately bad entry
+        return f'lookup-raises: get_by_raw_truth_table({t}) raises {type(e).__name__}: {e}'
+    key = ref_label(ref_normalize(t))
+    if c is None:
+        if key in db._dict:
+            return f'lookup-missed: table {t} normalises to {key}, which is stored, but nothing was returned'
+        return None
+    if case.get('corrupt'):
+        return None
+    got = circuit_table(c)
+    if got != t:
+        return f'lookup-wrong-function: asked for {t}, the returned circuit computes {got}'
+    if python_wf(ct.dump_circuit(c)):
+        return f'lookup-not-well-formed: {python_wf(ct.dump_circuit(c))} (table {t})'
+    return None
+
+
+def oracle_model_lookup(case):
+    from cirbo.core.circuit import gate as G
+    db = db_for_case(case)
+    tm = case['table']
+    excl = None if case.get('exclusion') is None else [getattr(G, n) for n in case['exclusion']]
+    try:
+        c = db.get_by_raw_truth_table_model(impl_model_table(tm), excl)
+    except Exception as e:  # noqa: BLE001
+        if case.get('corrupt'):
+            return None
+        return f'model-lookup-raises: {type(e).__name__}: {e} on {tm}'
+    if case.get('corrupt'):
+        return None
+    pos = [(i, j) for i, row in enumerate(tm) for j, x in enumerate(row) if x is None]
+    best = None
+    for sub in itertools.product((0, 1), repeat=len(pos)):
+        t = [[0 if x is None else int(x) for x in row] for row in tm]
+        for (i, j), v in zip(pos, sub):
+            t[i][j] = v
+        stored = db.get_by_raw_truth_table(impl_table(t))
+        if stored is not None:
+            size = stored.gates_number(excl)
+            best = size if best is None else min(best, size)
+    if c is None:
+        return None if best is None else f'model-lookup-missed: a completion of {tm} is stored but nothing was returned'
+    got = circuit_table(c)
+    for i, row in enumerate(tm):
+        for j, x in enumerate(row):
+            if x is not None and got[i][j] != int(x):
+                return f'model-lookup-disagrees: entry ({i},{j}) of {tm} is {x}, the returned circuit gives {got[i][j]}'
+    if best is not None and c.gates_number(excl) > best:
+        return f'model-lookup-not-minimal: returned size {c.gates_number(excl)}, a stored completion has size {best}'
+    return None
+
+
+def oracle_norm(case):
+    from cirbo.circuits_db.normalization import NormalizationInfo
+    t = case['table']
+    if not t or any(not row for row in t):
+        return None
+    ni = NormalizationInfo(impl_table(t))
+    got = [tuple(int(x) for x in r) for r in ni.truth_table]
+    if got != ref_normalize(t):
+        return f'normalisation-wrong: {t} normalises to {got}, expected {ref_normalize(t)}'
+    return None
+
+
+_oracle_c16 = oracle
+
+
+def oracle(case):  # noqa: F811 - extends the C16 oracle with the C17 kinds
+    k = case['kind']
+    if k == 'entry':
+        return oracle_entry(case)
+    if k == 'lookup':
+        return oracle_lookup(case)
+    if k == 'model_lookup':
+        return oracle_model_lookup(case)
+    if k == 'norm':
+        return oracle_norm(case)
+    return _oracle_c16(case)
